@@ -76,7 +76,18 @@ fn build_token(t: &str) -> Option<String> {
     let iss = c.get("iss")?;
     cl.insert(
       "iss".into(),
-      if let Some(w) = iss.strip_prefix('w') { json!(format!("https://e.x/holder/{}", w)) } else { json!(holder_did(iss.parse::<i64>().ok()?)) },
+      if let Some(w) = iss.strip_prefix('w') {
+        json!(format!("https://e.x/holder/{}", w))
+      } else if let Some(n) = iss.strip_prefix('f') {
+        // a DID URL of the holder's DID (fragment / query / path): not a DID
+        json!(format!("{}#key-1", holder_did(n.parse::<i64>().ok()?)))
+      } else if let Some(n) = iss.strip_prefix('q') {
+        json!(format!("{}?versionId=1", holder_did(n.parse::<i64>().ok()?)))
+      } else if let Some(n) = iss.strip_prefix('p') {
+        json!(format!("{}/path", holder_did(n.parse::<i64>().ok()?)))
+      } else {
+        json!(holder_did(iss.parse::<i64>().ok()?))
+      },
     );
     if let Some(e) = g("iat")? {
       cl.insert("iat".into(), json!(e));
@@ -321,6 +332,14 @@ pub fn gen(thorough: bool, seed: u64, out: &mut impl Write) {
           }
         }
       }
+    }
+  }
+  // (b'') an issuer that is a DID URL of the holder's DID (fragment, query, path): a URL, not the holder's DID
+  for iss in ["f2", "q2", "p2", "f5"] {
+    for vh in ["~", "2"] {
+      let mut s = Sc::base();
+      s.cl = s.cl.replace("iss=2", &format!("iss={}", iss)).replace("vholder=~", &format!("vholder={}", vh));
+      writeln!(out, "{}", s.line()).unwrap();
     }
   }
   // (b') an issuer / vp.holder that is the holder document's DID in another letter case (a different DID)
